@@ -1006,6 +1006,7 @@ def run(info, out):
             cases.append(c1); nresc += 1
         suspicious = (not info["proof_ok"])
         results = process(cases, exe_i, exe_m, pool, out)
+        cov["long_axis_cases"] = check_long_axis(Rng(seed).fork("C09-long-axis"), tier, exe_i, pool, out)
         if suspicious or any(r["fails"] for r in results.values()):
             # search harder: 10x volume through the same oracle
             extra = []
@@ -1088,6 +1089,66 @@ def run(info, out):
         return cov
     finally:
         pool.terminate()
+
+# one LONG axis (33..128 basis functions) next to a short one: the sizes of the flattened arrays, of the index arithmetic that
+# reshapes them and of the Kronecker factors are those of real fits. The list-based model is not run on these; the normal system
+# the code hands to the solver is compared with the DIRECT definition (sum of w b b' and lambda p p', assembled exactly), which
+# by C09_glam_is_kron / C09_fit_system_is_normal_system is what the model's GLAM path yields for every shape.
+def _long_axis_job(args):
+    c, io = args
+    fails = []
+    if io is None:
+        return c["id"], [("C09:impl:no-output", "harness produced no output for the long-axis case", {})]
+    if io.get("_crashed"):
+        return c["id"], [("C09:fit:crash", "the fitter crashed on a long-axis problem: " + io["_crashed"][:200], {})]
+    A, r, _, _ = direct_system(c)
+    n = len(A)
+    for ep in ("cpp", "c"):
+        tk = io.get(ep + ".A")
+        if tk is None:
+            continue
+        if [int(tk[0]), int(tk[1])] != [n, n]:
+            fails.append(("C09:corr:normal-system:%s:shape" % ep, "normal matrix has shape %s, expected %d x %d" % (tk[:2], n, n), {})); continue
+        im = [fr_of_hex(x) for x in tk[2:]]
+        scale = max(abs(x) for row in A for x in row)
+        t = 4096 * U53 * scale
+        worst, wk = Fr(0), 0
+        for i in range(n):
+            Ai = A[i]
+            for j in range(n):
+                dlt = abs(Ai[j] - im[i * n + j])
+                if dlt > worst:
+                    worst, wk = dlt, i * n + j
+        if worst > t:
+            fails.append(("C09:corr:normal-system:" + ep, "long axis (%s basis functions): entry (%d,%d) of the normal matrix handed to cholesky_solve is %r in the code, %r exactly (allowed %.3g)" % (
+                [nspl_of(d) for d in c["dims"]], wk // n, wk % n, float(im[wk]), float(A[wk // n][wk % n]), float(t)), {"entry": ep}))
+        rk = io.get(ep + ".r")
+        if rk is not None:
+            ir = [fr_of_hex(x) for x in rk[1:]]
+            rs = max([abs(x) for x in r] + [Fr(0)])
+            if len(ir) != n or max(abs(a - b) for a, b in zip(ir, r)) > 4096 * U53 * max(rs, Fr(1, 2 ** 200)):
+                fails.append(("C09:corr:normal-system:" + ep, "long axis: right-hand side handed to cholesky_solve differs from the exact one", {"entry": ep}))
+    return c["id"], fails
+
+def check_long_axis(rng, tier, exe_i, pool, out):
+    lens = list(range(33, 129))
+    if tier == "quick":
+        rng.shuffle(lens); lens = lens[:10]
+    cases = []
+    for q, nlong in enumerate(lens):
+        order = rng.choice([1, 1, 2])
+        short = dim_fixed(rng, rng.choice([0, 1]), rng.choice([2, 3]), 0, 0.0, rng.rint(2, 3))
+        long_ = dim_fixed(rng, order, nlong, rng.rint(0, order), rng.choice([0.0, 2.0 ** -10, 1.0]), nlong + rng.rint(0, 3), plain=True)
+        dims = [long_, short] if q % 2 == 0 else [short, long_]
+        c = fill_data(rng, "L%d" % q, dims, "random", 0)
+        c["family"] = "long-axis"
+        cases.append(c)
+    iout, crashes = run_impl_cases(exe_i, cases)
+    byid = {c["id"]: c for c in cases}
+    for cid, fails in pool.imap_unordered(_long_axis_job, [(c, iout.get(c["id"])) for c in cases], chunksize=1):
+        for sig, what, det in fails:
+            out.violation(sig, what + " [case %s]" % cid, {"case": byid[cid], "detail": det, "case_text": case_text(byid[cid])})
+    return len(cases)
 
 def process(cases, exe_i, exe_m, pool, out):
     iout, crashes = run_impl_cases(exe_i, cases)
